@@ -332,6 +332,9 @@ func (ex *Exec) applyMods(st *State, site ssa.CallInstruction, mods map[string]b
 		if strings.HasPrefix(n, "G!") {
 			delete(st.globals, strings.TrimPrefix(n, "G!"))
 			ex.frameCall(st, site, n, what)
+			if site != nil {
+				ex.captureWrite(st, site.(ssa.Instruction), "package-level variable (in "+what+")")
+			}
 			continue
 		}
 		if !allocOnly {
